@@ -155,8 +155,10 @@ class Ctx(object):
             return
         self.failures.append({"what": what if len(what) <= 400 else what[:400] + " …", "key": key, "case": case})
 
-    def op(self, op, case=None):
-        self.ops.append((op, case))
+    def op(self, op, case=None, reply=None):
+        """register an operation for the correspondence; `reply` = the implementation's reply when the
+        property module already computed it from the real code"""
+        self.ops.append((op, case, reply))
 
     # ---- correspondence
     def correspond(self):
@@ -166,12 +168,12 @@ class Ctx(object):
             return
         drv = wire.Driver()
         lines = []
-        for op, _ in self.ops:
+        for op, _, _ in self.ops:
             lines.append(impl.line(op))
         replies = drv.run(lines)
-        for (op, case), ln, mr in zip(self.ops, lines, replies):
+        for (op, case, pre), ln, mr in zip(self.ops, lines, replies):
             try:
-                ir = impl.run(op)
+                ir = pre if pre is not None else impl.run(op)
             except Exception as e:  # noqa
                 ir = "raised:" + type(e).__name__
             self.corr_checked += 1
